@@ -710,6 +710,15 @@ pub fn run(cfg: &Config) -> i32 {
             let mut paths = Vec::new();
             leaf_paths(&v, &mut Vec::new(), &mut paths);
             for path in paths {
+                // numeric leaves: magnitudes and precisions no MT text could have carried (they arrive by JSON only)
+                if let Some(Value::Number(_)) = get_path(&v, &path) {
+                    for nv in [1234567890123.45f64, 123456789012.345, 99999999999999.99, 999999999999999.0, 1e15, 1e17, 1e300, 1e-7, 0.000123, -1.5, -0.0, 0.1 + 0.2, 4503599627370497.5] {
+                        let mut v2 = v.clone();
+                        set_path(&mut v2, &path, serde_json::json!(nv));
+                        cases.push(("json/number-systematic".into(), Case::Json { mt: mt.clone(), text: v2.to_string() }));
+                    }
+                    continue;
+                }
                 let Some(Value::String(orig)) = get_path(&v, &path) else { continue };
                 let n = g::char_len(orig);
                 let mut variants: Vec<String> = vec![String::new(), format!("{}{}", orig, "X".repeat(300))];
@@ -1317,7 +1326,7 @@ fn leaf_paths(v: &Value, cur: &mut Vec<String>, out: &mut Vec<Vec<String>>) {
                 cur.pop();
             }
         }
-        Value::String(_) => out.push(cur.clone()),
+        Value::String(_) | Value::Number(_) => out.push(cur.clone()),
         _ => {}
     }
 }
